@@ -204,7 +204,10 @@ def check(report, tier, seed):
             if not ok and not any("InvalidConstant" in l for l in a):
                 report.violation("lex-literal-out-of-range-accepted", "literal %r does not fit 128 bits but is not rejected as out of range" % t[:60], rep)
     # ---- 3. trivia: comments, white space, line endings between tokens --------------------------
+    # the extracted model lexer is quadratic in the text length (unary offsets): keep the base program small
     base = gen.ProgGen(rng, n_wires=4, depth=2, allow_div=False).build()
+    while len(base) > 1200:
+        base = gen.ProgGen(rng, n_wires=3, depth=1, allow_div=False).build()
     bl = ["b0 lex %s" % lib.hexs(base)]
     btoks = [l.split(" ", 3)[3] for l in lib.run_cases(harness, bl)["b0"] if l.startswith("tok ")]
     trivia = [" ", "\n", "\r\n", "\r", "\t", " # c\n", " // c ❤\n", "/* c */", "/**/", "/* a * b **/", "/* / */", "/*\n*/", "/*/ x */", " /* é */ ", " ", "　"]
